@@ -11,6 +11,7 @@ from __future__ import annotations
 
 from mc import core
 from models import scope_model as S
+from models import declist_model as DL
 
 PID = "C04"
 PREFIX_LEN = 2          # histories up to this length are the parallel tasks
@@ -315,6 +316,80 @@ def _audit_programs(L, alpha_kind, init_enum):
 
 
 # ---------------------------------------------------------------------------
+# declarator-list family: visible from the end of its declarator, inside one
+# declaration with 2-4 declarators (models/declist_model.py)
+# ---------------------------------------------------------------------------
+def check_declist(case, parser):
+    """None if fine, else (kind, detail)."""
+    out = core.parse_outcome(case["text"], parser=parser)
+    want = case["want"]
+    if want == "reject":
+        if out[0] == "perr":
+            return None
+        if out[0] == "ok":
+            return ("accepted", "T is an object at declarator %d, this text can only parse with T as a type" % case["j"])
+        return ("exc", out[1] if len(out) > 1 else out[0])
+    if out[0] == "perr":
+        return ("reject", out[1])
+    if out[0] != "ok":
+        return ("exc", out[1] if len(out) > 1 else out[0])
+    try:
+        nodes = DL.locate(out[1], case)
+    except (AttributeError, IndexError, TypeError):
+        return ("mismatch", "declaration list not where the text puts it")
+    if len(nodes) != case["n"]:
+        return ("mismatch", "%d declarations for %d declarators" % (len(nodes), case["n"]))
+    got = core.canon(nodes[case["j"] - 1])
+    want = _tuplify(want)
+    if got != want:
+        return ("mismatch", "/".join(core.first_diff(got, want) or ()))
+    return None
+
+
+def _tuplify(x):
+    if isinstance(x, list):
+        return tuple(_tuplify(e) for e in x)
+    if isinstance(x, tuple):
+        return tuple(_tuplify(e) for e in x)
+    return x
+
+
+def _declist_sig(case):
+    return "declarator-list:%s@%s:name-introduced-by-%s-declarator-not-in-scope-in-later-one" % (
+        case["kind"], case["ctx"], "first" if case["i"] == 1 else "later")
+
+
+def _declist_work(rng):
+    from pycparser.c_parser import CParser
+
+    parser = CParser()
+    lo, hi = rng
+    cases = DL.cases()[lo:hi]
+    fails = []
+    cnt = {}
+    for case in cases:
+        r = check_declist(case, parser)
+        k = "%s:%s" % (case["kind"], "reject" if case["want"] == "reject" else "ast")
+        cnt[k] = cnt.get(k, 0) + 1
+        if r is not None:
+            cj = {k2: v for k2, v in case.items() if k2 != "want"}
+            cj["kind_of_case"] = "declist"
+            fails.append((_declist_sig(case), cj, "%s: %s" % r))
+    return len(cases), fails, cnt
+
+
+def _declist_audit():
+    """gcc accepts every typedef declarator list of the family that it can
+    type-check (each in its own function body, one translation unit)."""
+    import subprocess
+
+    decls = sorted({c["decl"] for c in DL.cases() if c["gcc"]})
+    tu = "".join("void a%d(void){ %s }\n" % (k, d) for k, d in enumerate(decls))
+    p = subprocess.run(["gcc", "-std=c11", "-fsyntax-only", "-w", "-x", "c", "-"], input=tu.encode(), capture_output=True)
+    return len(decls), p.returncode, p.stderr.decode(errors="replace")[:600]
+
+
+# ---------------------------------------------------------------------------
 def run(tier):
     R = core.Run(PID, tier, "model_checking")
     quick = tier == "quick"
@@ -365,6 +440,30 @@ def run(tier):
         if k.get("status") == "open" and i in R.known_hits:
             R.known_hits[i] = sum(tot.get("fail:" + s, 0) for s in k["signatures"]) or R.known_hits[i]
 
+    # declarator-list family (same in both tiers: the space is small)
+    ncases = len(DL.cases())
+    dl_n = 0
+    dl_cnt = {}
+    dl_fails = []
+    for n, fl, cnt in core.pmap(_declist_work, [(lo, min(ncases, lo + 200)) for lo in range(0, ncases, 200)], chunksize=1):
+        dl_n += n
+        dl_fails += fl
+        for k, v in cnt.items():
+            dl_cnt[k] = dl_cnt.get(k, 0) + v
+    # smallest first: fewest declarators, then earliest positions
+    dl_fails.sort(key=lambda f: (f[1]["n"], f[1]["j"], f[1]["i"], len(f[1]["text"])))
+    R.fail_many(dl_fails)
+    nd, rc, err = _declist_audit()
+    if rc != 0:
+        R.fail("model-audit:gcc-rejects-declarator-list", {"text": err, "kind": "history"}, err)
+    R.set("declarator_list_family", {"cases": dl_n, "by_kind_and_oracle": dl_cnt, "failures": len(dl_fails),
+                                     "typedef_declarations_accepted_by_gcc": nd if rc == 0 else 0,
+                                     "bounds": {"declarators": [2, 4], "introducing_position<=": 3, "contexts": list(DL.CONTEXTS),
+                                                "kinds": list(DL.KINDS), "intro_shapes": list(DL.INTRO_SHAPES),
+                                                "use_forms": [u[0] for u in DL.USE_FORMS], "specs": list(DL.SPECS)}})
+    if dl_n < 3000 or len(dl_cnt) < 4:
+        R.fail("vacuous:declarator-list-family", {"cases": dl_n}, "declarator-list family smaller than its bounds imply")
+
     # model audit: gcc accepts every history (no probes: they use undeclared x)
     audit = _audit_programs(2 if quick else 3, "full", True)
     n_aud = 0
@@ -381,8 +480,8 @@ def run(tier):
     R.set("transitions", tot.get("transitions", 0))
     R.set("histories", tot.get("histories", 0))
     R.set("histories_replayed_with_probes", tot.get("histories_probed", 0))
-    R.set("traces_validated_against_impl", tot.get("programs", 0))
-    R.set("evaluations", probes + tot.get("sub_label_probes", 0) + tot.get("sub_owninit_probes", 0) + tot.get("histories", 0))
+    R.set("traces_validated_against_impl", tot.get("programs", 0) + dl_n)
+    R.set("evaluations", probes + tot.get("sub_label_probes", 0) + tot.get("sub_owninit_probes", 0) + tot.get("histories", 0) + dl_n)
     R.set("distinct_nontrivial", tot.get("probes_of_declared_name", 0))
     R.set("probes", probes)
     R.set("expect_typedef", tot.get("expect_typedef", 0))
@@ -424,6 +523,14 @@ def replay(rep):
 
     c = rep["case"]
     print("input:", c["text"])
+    if c.get("kind_of_case") == "declist":
+        case = [x for x in DL.cases() if x["text"] == c["text"]][0]
+        r = check_declist(case, CParser())
+        print("reference: T is %s at declarator %d (introduced by declarator %d)" % (
+            "an object" if case["kind"] == "obj-over-td" else "a type", case["j"], case["i"]))
+        print("expected:", "ParseError" if case["want"] == "reject" else _cls(case["want"]))
+        print("observed:", "as expected" if r is None else r)
+        return 0 if r is None else 1
     if c.get("kind") == "history":
         out = core.parse_outcome(c["text"])
         print("expected: accepted (valid C history)")
